@@ -52,7 +52,7 @@ impl<'a> Dec<'a> {
             record_spans: false,
             path: vec![],
             depth: 0,
-            max_depth: 100_000,
+            max_depth: 5_000,
             tags_seen: vec![],
         }
     }
@@ -94,9 +94,14 @@ impl<'a> Dec<'a> {
     }
     fn atom(&mut self) -> R<String> {
         let p = self.pos;
-        match self.term()? {
-            Value::Atom(a) => Ok(a),
-            _ => Err(RefErr::Invalid("expected atom".into(), p)),
+        // only the atom tags are admissible here; never recurse into arbitrary terms
+        match self.data.get(self.pos) {
+            Some(100) | Some(115) | Some(118) | Some(119) | Some(82) => match self.term()? {
+                Value::Atom(a) => Ok(a),
+                _ => Err(RefErr::Invalid("expected atom".into(), p)),
+            },
+            Some(_) => Err(RefErr::Invalid("expected atom".into(), p)),
+            None => Err(RefErr::Eof(p)),
         }
     }
     fn small_nonneg(&mut self, what: &str) -> R<u32> {
